@@ -1002,17 +1002,21 @@ func (i *Interp) jsonEncode(fr *frame, sb *jsonBuf, t types.Type, v value, noHTM
 			return
 		}
 		type kv struct {
-			k string
+			k value // string, or sstring with symbolic bytes
 			p int
 		}
 		var kvs []kv
+		symbolicKeys := false
 		for _, p := range m.order() {
-			var ks string
+			var ks value
 			switch kk := m.keys[p].(type) {
 			case string:
 				ks = kk
 			case sstring:
-				panic(unsupported{"json: map with symbolic keys"})
+				// a key with symbolic bytes: its place among the sorted keys is decided
+				// by the solver (one fork per comparison, below)
+				ks = kk
+				symbolicKeys = true
 			default:
 				if tm := i.methodOf(u.Key(), "MarshalText", 0); tm != nil {
 					res := i.callFn(fr, tm, kk).(tuple)
@@ -1030,7 +1034,15 @@ func (i *Interp) jsonEncode(fr *frame, sb *jsonBuf, t types.Type, v value, noHTM
 			}
 			kvs = append(kvs, kv{ks, p})
 		}
-		sort.SliceStable(kvs, func(a, b int) bool { return kvs[a].k < kvs[b].k })
+		if !symbolicKeys {
+			sort.SliceStable(kvs, func(a, b int) bool { return kvs[a].k.(string) < kvs[b].k.(string) })
+		} else {
+			for a := 1; a < len(kvs); a++ {
+				for b := a; b > 0 && i.truth(i.strLess(kvs[b].k, kvs[b-1].k, false), fr, "json: order of map keys"); b-- {
+					kvs[b], kvs[b-1] = kvs[b-1], kvs[b]
+				}
+			}
+		}
 		sb.str("{")
 		for n, e := range kvs {
 			if n > 0 {
